@@ -21,6 +21,7 @@ import (
 // Available status is trusted only for its current generation; pause is propagated with an optimistic-lock patch.
 func VerifC15Remote() {
 	c := verifk8s.NewClient()
+	c.SpecWriteBumpsGeneration = true
 	uncached := verifk8s.NewClient()
 	os := &adapters.ObjectSetAdapter{}
 	os.Name, os.Namespace, os.UID = "me", "ns", "uid-me"
@@ -112,8 +113,12 @@ func VerifC15Remote() {
 	}
 	verifrt.Assert(len(creates) == 0, "C15/no-second-phase-object")
 	verifrt.Assert(err == nil, "C15/remote-reconcile-succeeds")
-	// trust only status for the current generation
-	trusted := verifrt.And(availKind == 1, og == gen)
+	// trust only status for the current generation - the generation after this pass's own spec patch, if any
+	currentGen := gen
+	if phasePaused != osPaused {
+		currentGen = gen + 1
+	}
+	trusted := verifrt.And(availKind == 1, og == currentGen)
 	verifrt.Assert(verifrt.Implies(res.IsZero(), trusted), "C15/available-trusted-only-for-current-generation")
 	verifrt.Assert(verifrt.Implies(trusted, res.IsZero()), "C15/available-phase-passes")
 	verifrt.Assert(len(active) == len(reported), "C15/controllerOf-as-reported-by-phase")
